@@ -24,14 +24,14 @@ EXTENDS Integers, Sequences, FiniteSets, TLC, Json
 CONSTANTS S, Agents, Texts, KeyHas, MaxAdds, MaxVer, MaxLen, Episodes, InitEps,
           Acts       \* names of the environment / configuration actions enabled in this run (bounds the state space)
 
-VARIABLES gw, gn, eps, adds, gen, ver, kill, k, scope, day, perf, tod, relax, c1, c2, cT, obs, h
-vars == <<gw, gn, eps, adds, gen, ver, kill, k, scope, day, perf, tod, relax, c1, c2, cT, obs, h>>
+VARIABLES gw, gn, gd, gl, eps, adds, gen, ver, kill, k, scope, day, perf, tod, relax, c1, c2, cT, obs, h
+vars == <<gw, gn, gd, gl, eps, adds, gen, ver, kill, k, scope, day, perf, tod, relax, c1, c2, cT, obs, h>>
 
 Has(x) == x \in KeyHas
 Opt(x, v) == IF Has(x) THEN v ELSE 0
 NoObs == [t1 |-> [hit |-> FALSE, cause |-> {}], t2 |-> [hit |-> FALSE, cause |-> {}], tl |-> [hit |-> FALSE, cause |-> {}]]
 
-Init == /\ gw = [s \in S |-> 0] /\ gn = [s \in S |-> 0]
+Init == /\ gw = [s \in S |-> 0] /\ gn = [s \in S |-> 0] /\ gd = [s \in S |-> 0] /\ gl = [s \in S |-> 0]
         /\ eps = [s \in S |-> InitEps] /\ adds = [s \in S |-> Cardinality(InitEps)] /\ gen = [s \in S |-> 0]
         /\ ver = [s \in S |-> 0] /\ kill = FALSE /\ k = 2 /\ scope = "any" /\ day = 0 /\ perf = 0 /\ tod = 0 /\ relax = 0
         /\ c1 = <<>> /\ c2 = <<>> /\ cT = [s \in S |-> <<>>]
@@ -48,18 +48,21 @@ Diff(a, b) == {f \in DOMAIN a : a[f] # b[f]}
 \* cap: the effective T1 frontier cap (configured value while the perf master switch is on, none while it is off)
 \* relax: t1.relax_cap  0 = unset (unbounded), 1 = 0 (no relaxation), 2 = 1 (one relaxation: the FIRST edge in the
 \* store's iteration order, so the insertion order of the state's edges matters - ord)
-F1(s, t) == [gw |-> gw[s], gn |-> gn[s], text |-> t, cap |-> perf, relax |-> relax, ord |-> IF relax = 2 THEN s ELSE 0]
+\* gd: an existing edge re-targeted (same id, source, weight, relation; other destination);
+\* gl: two nodes swap their labels (the set of labels stays, the node that carries a label changes)
+F1(s, t) == [gw |-> gw[s], gn |-> gn[s], gd |-> gd[s], gl |-> gl[s], text |-> t, cap |-> perf, relax |-> relax, ord |-> IF relax = 2 THEN s ELSE 0]
 View(a) == IF scope = "agent" THEN a ELSE "any"
 \* tod: time of day of the logical clock (two instants of the same calendar day)
-F2(s, a, t, r1) == [text |-> t, r1 |-> r1, mem |-> eps[s], view |-> View(a), k |-> k, day |-> day, tod |-> tod, graph |-> gn[s]]
+F2(s, a, t, r1) == [text |-> t, r1 |-> r1, mem |-> eps[s], view |-> View(a), k |-> k, day |-> day, tod |-> tod, graph |-> <<gn[s], gl[s]>>]
 
 \* keys as the code builds them
-K1(s, t) == <<IF Has("t1.content") THEN <<gw[s], gn[s]>> ELSE <<gn[s]>>, Opt("t1.state", IF relax = 2 THEN s ELSE 0), Opt("t1.perf", perf), Opt("t1.caps", relax), t>>
+\* (gl is always in the T1 key: the key carries the seed ids)
+K1(s, t) == <<IF Has("t1.content") THEN <<gw[s], gn[s], gd[s]>> ELSE <<gn[s]>>, gl[s], Opt("t1.state", IF relax = 2 THEN s ELSE 0), Opt("t1.perf", perf), Opt("t1.caps", relax), t>>
 K2(s, a, t, r1) == <<t, r1, adds[s], Opt("t2.index", <<s, gen[s]>>), Opt("t2.view", View(a)), Opt("t2.k", k),
-                     Opt("t2.day", <<day, tod>>), Opt("t2.graph", gn[s])>>
+                     Opt("t2.day", <<day, tod>>), Opt("t2.graph", <<gn[s], gl[s]>>)>>
 \* the turn-level key is built after T1 and carries the labels T1 touched (r1: graph content and effective cap)
 KT(s, a, t, r1) == <<ver[s], t, Opt("tl.view", View(a)), Opt("tl.k", k), Opt("tl.day", <<day, tod>>),
-                 Opt("tl.graph", <<gw[s], gn[s], r1.cap, r1.relax, r1.ord>>), Opt("tl.mem", <<adds[s], gen[s]>>)>>
+                 Opt("tl.graph", <<gw[s], gn[s], gd[s], gl[s], r1.cap, r1.relax, r1.ord>>), Opt("tl.mem", <<adds[s], gen[s]>>)>>
 
 Turn(s, a, t) ==
     LET f1 == F1(s, t)
@@ -80,32 +83,35 @@ Turn(s, a, t) ==
                        /\ ver' = [ver EXCEPT ![s] = ver[s] + 1]
        /\ obs' = [t1 |-> o1, t2 |-> o2, tl |-> oT]
        /\ h' = Append(h, [ev |-> "turn", s |-> s, a |-> a, t |-> t, obs |-> obs'])
-       /\ UNCHANGED <<gw, gn, eps, adds, gen, kill, k, scope, day, perf, tod, relax>>
+       /\ UNCHANGED <<gw, gn, gd, gl, eps, adds, gen, kill, k, scope, day, perf, tod, relax>>
 
 Env(name, s) == /\ obs' = NoObs /\ h' = Append(h, [ev |-> name, s |-> s])
                 /\ UNCHANGED <<c1, c2, cT, ver>>
 
-EditWeight(s) == gw' = [gw EXCEPT ![s] = 1 - gw[s]] /\ Env("edit_weight", s) /\ UNCHANGED <<gn, eps, adds, gen, kill, k, scope, day, perf, tod, relax>>
-AddNode(s) == gn[s] = 0 /\ gn' = [gn EXCEPT ![s] = 1] /\ Env("add_node", s) /\ UNCHANGED <<gw, eps, adds, gen, kill, k, scope, day, perf, tod, relax>>
+EditWeight(s) == gw' = [gw EXCEPT ![s] = 1 - gw[s]] /\ Env("edit_weight", s) /\ UNCHANGED <<gn, gd, gl, eps, adds, gen, kill, k, scope, day, perf, tod, relax>>
+EditDst(s) == gd' = [gd EXCEPT ![s] = 1 - gd[s]] /\ Env("edit_dst", s) /\ UNCHANGED <<gw, gn, gl, eps, adds, gen, kill, k, scope, day, perf, tod, relax>>
+SwapLabels(s) == gl' = [gl EXCEPT ![s] = 1 - gl[s]] /\ Env("swap_labels", s) /\ UNCHANGED <<gw, gn, gd, eps, adds, gen, kill, k, scope, day, perf, tod, relax>>
+AddNode(s) == gn[s] = 0 /\ gn' = [gn EXCEPT ![s] = 1] /\ Env("add_node", s) /\ UNCHANGED <<gw, gd, gl, eps, adds, gen, kill, k, scope, day, perf, tod, relax>>
 AddEpisode(s, e) == /\ e \notin eps[s] /\ adds[s] < MaxAdds
                     /\ eps' = [eps EXCEPT ![s] = eps[s] \cup {e}] /\ adds' = [adds EXCEPT ![s] = adds[s] + 1]
                     /\ obs' = NoObs /\ h' = Append(h, [ev |-> "add_episode", s |-> s, e |-> e])
-                    /\ UNCHANGED <<gw, gn, gen, ver, kill, k, scope, day, perf, tod, relax, c1, c2, cT>>
+                    /\ UNCHANGED <<gw, gn, gd, gl, gen, ver, kill, k, scope, day, perf, tod, relax, c1, c2, cT>>
 ClearIndex(s) == /\ eps[s] # {} /\ gen[s] < 1
                  /\ eps' = [eps EXCEPT ![s] = {}] /\ adds' = [adds EXCEPT ![s] = 0] /\ gen' = [gen EXCEPT ![s] = gen[s] + 1]
-                 /\ Env("clear_index", s) /\ UNCHANGED <<gw, gn, kill, k, scope, day, perf, tod, relax>>
-ToggleKill == kill' = ~kill /\ Env("toggle_kill", 0) /\ UNCHANGED <<gw, gn, eps, adds, gen, k, scope, day, perf, tod, relax>>
-SetK == k' = 3 - k /\ Env("set_k", 0) /\ UNCHANGED <<gw, gn, eps, adds, gen, kill, scope, day, perf, tod, relax>>
-SetScope == scope' = (IF scope = "any" THEN "agent" ELSE "any") /\ Env("set_scope", 0) /\ UNCHANGED <<gw, gn, eps, adds, gen, kill, k, day, perf, tod, relax>>
-NextHour == tod' = 1 - tod /\ Env("next_hour", 0) /\ UNCHANGED <<gw, gn, eps, adds, gen, kill, k, scope, day, perf, relax>>
-SetRelax == relax' = (relax + 1) % 3 /\ Env("set_relax", 0) /\ UNCHANGED <<gw, gn, eps, adds, gen, kill, k, scope, day, perf, tod>>
-TogglePerf == perf' = 1 - perf /\ Env("toggle_perf", 0) /\ UNCHANGED <<gw, gn, eps, adds, gen, kill, k, scope, day, tod, relax>>
-NextDay == day = 0 /\ day' = 1 /\ Env("next_day", 0) /\ UNCHANGED <<gw, gn, eps, adds, gen, kill, k, scope, perf, tod, relax>>
+                 /\ Env("clear_index", s) /\ UNCHANGED <<gw, gn, gd, gl, kill, k, scope, day, perf, tod, relax>>
+ToggleKill == kill' = ~kill /\ Env("toggle_kill", 0) /\ UNCHANGED <<gw, gn, gd, gl, eps, adds, gen, k, scope, day, perf, tod, relax>>
+SetK == k' = 3 - k /\ Env("set_k", 0) /\ UNCHANGED <<gw, gn, gd, gl, eps, adds, gen, kill, scope, day, perf, tod, relax>>
+SetScope == scope' = (IF scope = "any" THEN "agent" ELSE "any") /\ Env("set_scope", 0) /\ UNCHANGED <<gw, gn, gd, gl, eps, adds, gen, kill, k, day, perf, tod, relax>>
+NextHour == tod' = 1 - tod /\ Env("next_hour", 0) /\ UNCHANGED <<gw, gn, gd, gl, eps, adds, gen, kill, k, scope, day, perf, relax>>
+SetRelax == relax' = (relax + 1) % 3 /\ Env("set_relax", 0) /\ UNCHANGED <<gw, gn, gd, gl, eps, adds, gen, kill, k, scope, day, perf, tod>>
+TogglePerf == perf' = 1 - perf /\ Env("toggle_perf", 0) /\ UNCHANGED <<gw, gn, gd, gl, eps, adds, gen, kill, k, scope, day, tod, relax>>
+NextDay == day = 0 /\ day' = 1 /\ Env("next_day", 0) /\ UNCHANGED <<gw, gn, gd, gl, eps, adds, gen, kill, k, scope, perf, tod, relax>>
 
 On(a) == a \in Acts
 Next == /\ Len(h) < MaxLen
         /\ \/ \E s \in S, a \in Agents, t \in Texts : ver[s] < MaxVer /\ Turn(s, a, t)
            \/ \E s \in S : (On("edit_weight") /\ EditWeight(s)) \/ (On("add_node") /\ AddNode(s)) \/ (On("clear_index") /\ ClearIndex(s))
+                            \/ (On("edit_dst") /\ EditDst(s)) \/ (On("swap_labels") /\ SwapLabels(s))
            \/ \E s \in S, e \in Episodes : On("add_episode") /\ AddEpisode(s, e)
            \/ (On("toggle_kill") /\ ToggleKill) \/ (On("set_k") /\ SetK) \/ (On("set_scope") /\ SetScope) \/ (On("next_day") /\ NextDay)
            \/ (On("toggle_perf") /\ TogglePerf) \/ (On("next_hour") /\ NextHour) \/ (On("set_relax") /\ SetRelax)
@@ -117,7 +123,7 @@ HitEqualsFresh == ~Stale
 \* with the full key set no stale hit exists; with the keys of the current code the stale hits are
 \* exactly those caused by components missing from KeyHas (checked by the harness per witness)
 
-View_ == <<gw, gn, eps, adds, gen, ver, kill, k, scope, day, perf, tod, relax, c1, c2, cT, obs>>
+View_ == <<gw, gn, gd, gl, eps, adds, gen, ver, kill, k, scope, day, perf, tod, relax, c1, c2, cT, obs>>
 EmitStale == Stale => PrintT(<<"T", ToJson([h |-> h])>>)
 EmitAtEnd == (Len(h) = MaxLen) => PrintT(<<"T", ToJson([h |-> h])>>)
 =============================================================================
